@@ -46,7 +46,7 @@ def check_signature(c, fn):
     return names, want[len(names):]
 
 
-def verify_function(key, tier='quick', keep_terms=False):
+def verify_function(key, tier='quick', keep_terms=False, discharge=True):
     c = R.CONTRACTS[key]
     res = FuncResult(key)
     t0 = time.time()
@@ -60,6 +60,7 @@ def verify_function(key, tier='quick', keep_terms=False):
         for l in fn.loops:
             pass
         ex = Explorer(key)
+        entry_env = [None]
         body_stmts = F.strip_docstring(fn.node.body)
 
         def run(st):
@@ -84,6 +85,7 @@ def verify_function(key, tier='quick', keep_terms=False):
                 st.assume(E.spec_bool(st, rq, env))
             st.old_heap = dict(st.heap)
             st.old_locals = dict(env)
+            entry_env[0] = dict(env)
             st.mod_targets = calls.eval_modifies(st, c, env)
             st.locals = dict(env)
             outcome = None
@@ -138,9 +140,12 @@ def verify_function(key, tier='quick', keep_terms=False):
         res.paths = ex.paths
         res.exits = dict(ex.exits)
         # discharge
-        for ob in ex.obligations:
-            smt.discharge(ob, tier)
+        if discharge:
+            for ob in ex.obligations:
+                smt.discharge(ob, tier)
         res.raw = ex.obligations if keep_terms else None
+        res.entry_env = entry_env[0] if keep_terms else None
+        res.entry_heap_consts = None
         for ob in ex.obligations:
             d = dict(name=ob.name, label=ob.label, line=ob.lineno, status=ob.status, backend=ob.backend,
                      time=round(ob.time, 4), kind=ob.kind, path=list(ob.path))
